@@ -491,7 +491,7 @@ func (l *listener) ServeHTTP(w http.ResponseWriter, r *http.Request) {
 
 func (l *listener) Address() string {
 	if l.anon {
-		u := l.url
+		u := *l.url // a copy: the listener's URL is shared by every caller
 		u.Host = fmt.Sprintf("%s:%d", u.Hostname(), l.bound.Port)
 		return u.String()
 	}
